@@ -749,7 +749,9 @@ func (cc *Conn) addResponseToCache(mid int32, resp *pool.Message) error {
 // checkMyMessageID compare client msgID against peer messageID and if it is near < 0xffff/4 then increase msgID.
 // When msgIDs met it can cause issue because cache can send message to which doesn't bellows to request.
 func (cc *Conn) checkMyMessageID(req *pool.Message) {
-	if req.Type() == message.Confirmable {
+	// The peer's message IDs and ours share the per-message-ID lock of handleReq and the response cache: every
+	// message of the peer that carries an ID of its own (confirmable or not) moves our counter away from it.
+	if req.Type() == message.Confirmable || req.Type() == message.NonConfirmable {
 		for {
 			oldID := cc.msgID.Load()
 			if pkgMath.CastTo[uint16](req.MessageID())-pkgMath.CastTo[uint16](cc.msgID.Load()) >= 0xffff/4 {
